@@ -16,6 +16,7 @@ import (
 	"strconv"
 	"strings"
 	"sync"
+	"time"
 
 	"github.com/jrhy/mast"
 )
@@ -86,6 +87,12 @@ func (s *Store) Store(ctx context.Context, name string, b []byte) error {
 		s.mu.Unlock()
 		return ErrInjected
 	}
+	if s.w != nil && s.w.Opts["slowstore"] == "1" {
+		// a store with latency: widens the window between a write being queued and the persist committing
+		time.Sleep(time.Duration(150+len(name)%7*40) * time.Microsecond)
+	} else if s.w != nil && s.w.Opts["slowstore"] == "2" {
+		time.Sleep(3 * time.Millisecond)
+	}
 	if gate != nil {
 		if err := gate(name, b); err != nil {
 			s.mu.Lock()
@@ -150,6 +157,7 @@ type treeT struct {
 }
 
 type World struct {
+	Ctx     context.Context
 	Trees   map[int]*treeT
 	Roots   map[int]*mast.Root
 	StoresM map[int]*Store
@@ -493,6 +501,9 @@ func (w *World) collect() ([]string, []string) {
 // Exec runs one operation line.
 func (w *World) Exec(line string) (res Result) {
 	ctx := context.Background()
+	if w.Ctx != nil {
+		ctx = w.Ctx // the schedule engine runs persists under contexts it cancels
+	}
 	toks := strings.Fields(line)
 	defer func() {
 		if r := recover(); r != nil {
@@ -692,6 +703,21 @@ func (w *World) Exec(line string) (res Result) {
 		}
 		kind, s := atoi(toks[4]), atoi(toks[3])
 		m, err := r.LoadMast(ctx, w.config(kind, s))
+		if err != nil {
+			return fail(err)
+		}
+		w.setTree(atoi(toks[2]), &treeT{m, kind, s})
+		return ok("")
+	case "loadnc":
+		// LoadMast from the store alone (no node cache): what a replica or a restarted process would see
+		r := w.getRoot(atoi(toks[1]))
+		if r == nil {
+			return bad
+		}
+		kind, s := atoi(toks[4]), atoi(toks[3])
+		cfg := w.config(kind, s)
+		cfg.NodeCache = nil
+		m, err := r.LoadMast(ctx, cfg)
 		if err != nil {
 			return fail(err)
 		}
